@@ -215,6 +215,33 @@ func runC20(c *core.Ctx) {
 				if p {
 					c.Violate("Pool["+t.Name+"]|panic", cid, "get/put cycle on a pool with a degenerate allocator panicked: "+msg, d)
 				}
+				// several buffers outstanding; one of them is grown by Append (legal:
+				// a zero-capacity buffer may grow); the others and later Gets stay inert
+				ev("Pool["+t.Name+"]", "pool-outstanding", cid, d)
+				if p, msg := core.Guard(func() {
+					pool := t.PoolAlloc(signal.Allocator{Channels: g.ch, Length: g.l, Capacity: g.k})
+					g1, g2 := pool.Get(), pool.Get()
+					if g1.Same(g2) || g1.HeaderAddr() == g2.HeaderAddr() {
+						c.Violate("Pool["+t.Name+"]|same-object", cid, "two Gets without a Put returned the same buffer object", d)
+						return
+					}
+					if g.ch > 0 {
+						src := t.Alloc(signal.Allocator{Channels: g.ch, Length: g.k + 2, Capacity: g.k + 2})
+						for i := 0; i < src.Len(); i++ {
+							src.SetSample(i, mon.Canary(t.TypeInfo, i, 8))
+						}
+						g1.Append(src) // grows beyond the (zero or small) capacity
+					}
+					g3 := pool.Get()
+					for name, x := range map[string]dyn.Buf{"the other outstanding buffer": g2, "a later Get": g3} {
+						if x.RawLen() != g.ch*g.l || x.RawCap() != g.ch*g.k {
+							c.Violate("Pool["+t.Name+"]|shared-object", cid, fmt.Sprintf("after one pooled buffer was grown by Append, %s reads %v", name, mon.ShapeOf(x)), d)
+							return
+						}
+					}
+				}); p {
+					c.Violate("Pool["+t.Name+"]|panic", cid, "pool with a degenerate allocator and several buffers outstanding panicked: "+msg, d)
+				}
 			}
 			// --- Read / Write / striped forms
 			for oi, o := range dyn.Types[:dyn.NBuiltin] {
